@@ -676,6 +676,13 @@ def wl_eig_general(rng, rec, tier):
         kw = {"k": k, "which": which}
         if backend:
             kw["backend"] = backend
+        if rng.random() < 0.3:
+            # generalized non-Hermitian problem A v = l B v (dense path)
+            b = rand_herm(rng, d, "psd", dtype) + np.eye(d) * 0.5
+            kw["B"] = b
+            kw["backend"] = "numpy"
+            if r in ("linop", "lazy"):
+                Ar, r = A, "dense"
         gen.attempt(gen.choice(rng, [qu.eig, qu.eigvals]), Ar, **kw)
     return {"d": d, "dtype": dtype, "mode": mode}
 
